@@ -31,5 +31,13 @@ ITEMS = [('src/mbi/inference.py', 'FactoredInference._marginal_loss', contract('
          ('src/mbi/local_inference.py', 'LocalInference._marginal_loss', contract('LocalInference'), 'C18')]
 
 
-def hooks():
-    return LinHooks(real_dicts=(), vector_dicts=(), sites=SITES, tables_are_factors=False)
+# PublicInference._marginal_loss: the same two equations; the marginals are keyed by the measurements' own attribute tuples, so the
+# residual is taken at the data vector of marginals[cl] itself
+SITES_PUBLIC = SITES[:2] + [dict(local='x', nth=1, of=1, name='residual-is-taken-at-the-marginal-of-the-measurements-clique', spec='same(__arg, marginals[cl].datavector())')]
+_pub = contract('PublicInference')
+_pub.update(uses_locals=['Q', 'x', 'y', 'noise', 'mu', 'cl', 'loss', 'grad', 'diff', 'c'], sites=SITES_PUBLIC)
+PUBLIC_ITEMS = [('src/mbi/public_inference.py', 'PublicInference._marginal_loss', _pub, 'C19')]
+
+
+def hooks(sites=None):
+    return LinHooks(real_dicts=(), vector_dicts=(), sites=SITES if sites is None else sites, tables_are_factors=False)
